@@ -4,7 +4,7 @@
 
 REPO    ?= /repo
 SRC     := $(REPO)/src
-FLAVOURS ?= asan plain tsan
+FLAVOURS ?= asan tsan
 B       := build
 
 LIBSRC  := $(wildcard $(SRC)/[!.]*.cpp)
